@@ -172,7 +172,7 @@ def run(chk: core.Check, tier: str, seed: int) -> None:
                    (1, [[[[1]]]]), (2, {"a": [[[[0]]]], "b": 1}), (1, {"a": {"a": {"a": 1}}}), (2, [{"a": [[{"a": [1]}]]}, [[[[2]]]]])]:
         lenv = probes.make_env(jp, [], [], nondeterministic=True, max_depth=lim)
         ed = core.enc_value(d)
-        for q in ["$.a..*", "$[0]..*", "$.*..*", "$[*]..[0]", "$.a.a..b", "$.a..[?@]"]:
+        for q in ["$.a..*", "$[0]..*", "$.*..*", "$[*]..[0]", "$.a.a..b", "$.a..[?@]", "$[?@..a]", "$[?@..*]", "$.a[?count(@..*) > 0]", "$.*"]:
             results, complete, runs = outputs_of(jp, lenv, q, d, cap)
             total_runs += runs
             outs = sorted(set(results), key=repr)
@@ -199,6 +199,14 @@ def run(chk: core.Check, tier: str, seed: int) -> None:
                     continue
             recs.append({"op": "nondet", "q": core.enc_text(q), "doc": ed, "complete": complete, "runs": runs,
                          "outputs": [[core.enc_loc(loc) for loc in o] for o in outs]})
+        # ... and after whatever the evaluations above did (some raised), the environment is still nondeterministic:
+        # every ordering of three members is still produced
+        three = {"x": 1, "y": 2, "z": 3}            # nesting 1: within every limit used here
+        for q in ("$.*", "$[?@]", "$..*"):
+            results, complete, runs = outputs_of(jp, lenv, q, three, cap)
+            total_runs += runs
+            recs.append({"op": "nondet", "q": core.enc_text(q), "doc": core.enc_value(three), "complete": complete, "runs": runs,
+                         "outputs": [[core.enc_loc(loc) for loc in o] for o in sorted(set(results), key=repr)]})
     # larger documents: seeded outcomes, validity only
     n_big = 60 if tier == "quick" else 3000
     k = -1
